@@ -50,6 +50,7 @@ type ReplCase struct {
 	NRep    int            `json:"nrep"`
 	Script  []REv          `json:"script"`
 	SettleS int64          `json:"settle_s"`
+	DiskUs  int            `json:"disk_us,omitempty"` // max virtual latency of a state-changing I/O (all nodes)
 }
 
 func scriptString(s []REv) string {
@@ -75,6 +76,7 @@ func runC14(t *testing.T, c ReplCase) *kit.Result {
 		sim = simrt.S
 		cl := newReplCluster(c.Cfg, c.PK, c.RK, c.NRep, c.Link)
 		kit.TagNode(cl.fs, "n1")
+		cl.setDiskLatency(c.DiskUs)
 		fail := func(kind, sig, detail string) {
 			if res.V == nil {
 				res.V = &kit.Violation{Kind: kind, Signature: sig, Detail: detail}
@@ -323,6 +325,47 @@ func genReplScript(r *kit.Rand, nrep int, tier string, withFaults bool) []REv {
 		maxOps = 80
 	}
 	prog := kit.GenProgram(r, kit.ProgOpts{MinOps: 1, MaxOps: maxOps, Keys: ks, WTxn: 12, WBatch: 8, WFlush: 6, WSleep: 10, WGet: 2, WCompact: 2})
+	// The catch-up path of the primary sends at most 100 entries per message
+	// (a constant in kevo): a quarter of the cases carry a bulk segment that
+	// makes the log cross that mark - many small puts, one large batch or
+	// transaction, or puts up to just below the mark followed by a transaction
+	// that straddles it.
+	if r.Bool(0.25) {
+		tag := uint32(100000)
+		bulkKey := func(i int) []byte { return []byte(fmt.Sprintf("bulk/%03d", i)) }
+		put := func(i int) kit.Op {
+			tag++
+			return kit.Op{K: "put", Key: bulkKey(i), Tag: tag, Len: r.Range(1, 12)}
+		}
+		group := func(n int) kit.Op {
+			g := kit.Op{K: kit.PickOf(r, "batch", "txn"), Commit: true}
+			base := r.Intn(200)
+			for i := 0; i < n; i++ {
+				if r.Bool(0.15) {
+					g.Sub = append(g.Sub, kit.Op{K: "del", Key: bulkKey((base + i) % 200)})
+				} else {
+					g.Sub = append(g.Sub, put((base+i)%200))
+				}
+			}
+			return g
+		}
+		var bulk []kit.Op
+		switch r.Pick(2, 2, 3) {
+		case 0:
+			for i, n := 0, r.Range(60, 140); i < n; i++ {
+				bulk = append(bulk, put(r.Intn(200)))
+			}
+		case 1:
+			bulk = append(bulk, group(kit.PickOf(r, 3, 50, 99, 100, 101, 150, 160)))
+		case 2:
+			for i, n := 0, 100-r.Range(0, 6); i < n; i++ {
+				bulk = append(bulk, put(r.Intn(200)))
+			}
+			bulk = append(bulk, group(r.Range(2, 9)))
+		}
+		at := r.Intn(len(prog) + 1)
+		prog = append(append(append([]kit.Op(nil), prog[:at]...), bulk...), prog[at:]...)
+	}
 	var script []REv
 	joinAt := make([]int, nrep)
 	for i := range joinAt {
@@ -452,6 +495,7 @@ func TestC14(t *testing.T) {
 			c.RK.MemTableSize = kit.PickOf(r, int64(1024), 16384, 32<<20)
 			c.PK.CompactionInterval, c.RK.CompactionInterval = 5, 5
 			c.Script = genReplScript(r, c.NRep, tier, r.Bool(0.6))
+			c.DiskUs = kit.PickOf(r, 0, 0, 50, 300, 1000)
 			return c
 		},
 		Run: runC14,
